@@ -3,6 +3,7 @@ package main
 import (
 	"fmt"
 	"go/token"
+	"go/types"
 	"strings"
 
 	"golang.org/x/tools/go/ssa"
@@ -96,6 +97,77 @@ func leafValues(w *World, v ssa.Value, depth int, leaves *[]ssa.Value, consts *[
 	}
 }
 
+// c16LeafValidated: the path component l, used at instruction `at` of fn, is the very value a certified validation accepted on
+// every path to `at` — in fn itself, or, when l is a parameter of an unexported function whose call sites are all known, at
+// every call site for the components of the argument passed there (the validation may sit in a wrapper that then calls a
+// worker, or in a caller that validates once and hands the name on).
+func c16LeafValidated(w *World, valid map[*ssa.Function]string, fn *ssa.Function, at ssa.Instruction, l ssa.Value, depth int) bool {
+	g := w.Info(fn).GuardsOf(at)
+	ld := desc(l)
+	for vf, kind := range valid {
+		if kind == "err" && labelHas(g, "EQ(call:"+fnName(vf)+"("+ld+")#err,nil)") {
+			return true
+		}
+		if kind == "bool" && labelHas(g, "T(call:"+fnName(vf)+"("+ld+"))") {
+			return true
+		}
+	}
+	p, ok := l.(*ssa.Parameter)
+	if !ok || depth > 3 || token.IsExported(fn.Name()) || fn.Parent() != nil {
+		return false
+	}
+	pi := -1
+	for i, q := range fn.Params {
+		if q == p {
+			pi = i
+		}
+	}
+	if pi < 0 {
+		return false
+	}
+	sites := 0
+	for _, F := range w.Funcs {
+		for _, b := range F.Blocks {
+			for _, in := range b.Instrs {
+				if mc, ok := in.(*ssa.MakeClosure); ok && mc.Fn == ssa.Value(fn) {
+					return false
+				}
+				ci, ok := in.(ssa.CallInstruction)
+				if !ok {
+					continue
+				}
+				for _, a := range ci.Common().Args {
+					if a == ssa.Value(fn) {
+						return false
+					}
+				}
+				if ci.Common().StaticCallee() != fn {
+					continue
+				}
+				if len(ci.Common().Args) != len(fn.Params) {
+					return false
+				}
+				sites++
+				var leaves []ssa.Value
+				var consts []string
+				leafValues(w, ci.Common().Args[pi], 0, &leaves, &consts)
+				for _, k := range consts {
+					s, _ := unquote(k)
+					if strings.ContainsAny(s, "/\\\x00") || s == ".." || s == "." || strings.Contains(s, "..") {
+						return false
+					}
+				}
+				for _, al := range leaves {
+					if !c16LeafValidated(w, valid, F, ci, al, depth+1) {
+						return false
+					}
+				}
+			}
+		}
+	}
+	return sites > 0
+}
+
 // certifiedValidators returns the product functions func(string) error /
 // func(string) bool whose success implies the certified file-name predicate on
 // their parameter.
@@ -174,18 +246,8 @@ func runC16(c *Ctx) {
 			g := fi.GuardsOf(call)
 			var bad []string
 			for _, l := range leaves {
-				ld := desc(l)
-				ok := false
-				for vf, kind := range valid {
-					if kind == "err" && labelHas(g, "EQ(call:"+fnName(vf)+"("+ld+")#err,nil)") {
-						ok = true
-					}
-					if kind == "bool" && labelHas(g, "T(call:"+fnName(vf)+"("+ld+"))") {
-						ok = true
-					}
-				}
-				if !ok {
-					bad = append(bad, ld)
+				if !c16LeafValidated(w, valid, fn, call, l, 0) {
+					bad = append(bad, desc(l))
 				}
 			}
 			for _, k := range consts {
@@ -203,8 +265,24 @@ func runC16(c *Ctx) {
 			c.Check(strings.HasSuffix(desc(callArgs(call)[0]), ".pluginFS"), key+"/fs", "the path is resolved in the manager's plugin file system", w.InstrPos(call), "receiver "+desc(callArgs(call)[0]))
 		}
 	}
-	if nSys < 3 {
-		c.Unk("confined#count", "vacuity guard: Get, Install and Uninstall resolve a plugin path", "-", fmt.Sprintf("%d SysPath calls in manager methods", nSys))
+	// vacuity guard: the three exported operations that take or derive a plugin name each reach such a resolution
+	nOps := 0
+	for _, fn := range w.FuncsOfPkg("plugin") {
+		if fn.Signature.Recv() == nil || !mgrs[namedOf(fn.Signature.Recv().Type())] || !token.IsExported(fn.Name()) {
+			continue
+		}
+		reaches := false
+		for _, g := range append([]*ssa.Function{fn}, w.moduleCallees(fn)...) {
+			if g.Signature.Recv() != nil && mgrs[namedOf(g.Signature.Recv().Type())] && len(findCalls(g, "invoke:ngo/dir.SysFS.SysPath")) > 0 {
+				reaches = true
+			}
+		}
+		if reaches {
+			nOps++
+		}
+	}
+	if nSys < 1 || nOps < 3 {
+		c.Unk("confined#count", "vacuity guard: Get, Install and Uninstall resolve a plugin path", "-", fmt.Sprintf("%d SysPath calls in manager methods, reached from %d exported operations", nSys, nOps))
 	}
 	// (b) who may call
 	for _, fn := range w.FuncsOfPkg("plugin") {
@@ -224,6 +302,23 @@ func runC16(c *Ctx) {
 	c16Verifier(c)
 	c16List(c, mgrs)
 	c.MinCount("", 10, "plugin confinement obligations")
+}
+
+func namedStructOf(t types.Type) *types.Named {
+	if p, ok := t.Underlying().(*types.Pointer); ok {
+		t = p.Elem()
+	}
+	if a, ok := t.(*types.Alias); ok {
+		t = types.Unalias(a)
+	}
+	n, ok := t.(*types.Named)
+	if !ok {
+		return nil
+	}
+	if _, isStruct := n.Underlying().(*types.Struct); !isStruct {
+		return nil
+	}
+	return n
 }
 
 // c16Verifier: the attribute-supplied plugin name reaches only Manager.Get.
@@ -305,6 +400,33 @@ func c16Verifier(c *Ctx) {
 						}
 					}
 					if okLocal {
+						continue
+					}
+				}
+				// a field of an unexported struct type of the module (a result object handed back by a helper): every read of that
+				// field of that type, anywhere in the module, continues the flow
+				if fa, ok := x.Addr.(*ssa.FieldAddr); ok && x.Val == v {
+					if nt := namedStructOf(fa.X.Type()); nt != nil && nt.Obj().Pkg() != nil && strings.HasPrefix(nt.Obj().Pkg().Path(), modPath) && !token.IsExported(nt.Obj().Name()) {
+						for _, fn := range w.Funcs {
+							for _, b := range fn.Blocks {
+								for _, in := range b.Instrs {
+									switch y := in.(type) {
+									case *ssa.FieldAddr:
+										if y.Field == fa.Field && namedStructOf(y.X.Type()) == nt {
+											for _, rr := range *y.Referrers() {
+												if ld, ok := rr.(*ssa.UnOp); ok {
+													walk(ld, depth+1)
+												}
+											}
+										}
+									case *ssa.Field:
+										if y.Field == fa.Field && namedStructOf(y.X.Type()) == nt {
+											walk(y, depth+1)
+										}
+									}
+								}
+							}
+						}
 						continue
 					}
 				}
